@@ -71,3 +71,19 @@ Proof.
   exists (mkP 1 93600 true [65; 1; 2]), (mkP 2 97200 true [65; 3; 4]), 2147483648.
   vm_compute. split; reflexivity.
 Qed.
+
+(* ---- metadata clause of the stream oracle ---- *)
+From V Require Import C07Meta C07MetaProofs.
+
+Theorem meta_model_passes : forall c fs,
+  meta_kept c (fs ++ meta_frames (meta_after c fs)) = true \/ exists o, In o fs /\ is_meta_frame o = true.
+Proof.
+  intros c fs. destruct (existsb is_meta_frame fs) eqn:E.
+  - right. apply existsb_exists in E. exact E.
+  - left. unfold meta_kept, meta_after.
+    rewrite malformed_paramset_does_not_poison by (destruct c; reflexivity).
+    rewrite filter_app.
+    assert (F : filter is_meta_frame fs = []).
+    { induction fs as [|o r IH]; simpl in *; auto. apply orb_false_iff in E as [E1 E2]. rewrite E1. auto. }
+    rewrite F. destruct c; reflexivity.
+Qed.
